@@ -16,6 +16,7 @@ mod g_push;
 mod g_open;
 mod g_e2e;
 mod g_pool;
+mod g_hb;
 mod e2e;
 
 use std::io::Write;
@@ -43,6 +44,7 @@ fn group_by_name(name: &str) -> Option<Box<dyn Group>> {
         "open" => Some(Box::new(g_open::OpenGroup)),
         "e2e" => Some(Box::new(g_e2e::E2eGroup)),
         "pool" => Some(Box::new(g_pool::PoolGroup)),
+        "hb" => Some(Box::new(g_hb::HbGroup)),
         _ => None,
     }
 }
